@@ -144,7 +144,7 @@ pub fn leaf_version(p: &mut Prng) -> LeafVersion {
 
 pub fn schnorr_sig(p: &mut Prng) -> SchnorrSig {
     let b = p.bytes(64);
-    SchnorrSig { sig: zkp::schnorr::Signature::from_slice(&b).expect("64 bytes"), hash_ty: *p.pick(&crate::worlds::sighash::SCHNORR) }
+    SchnorrSig { sig: zkp::schnorr::Signature::from_slice(&b).expect("64 bytes"), hash_ty: *p.pick(&crate::worlds::sighash::SCHNORR[..7]) }
 }
 
 pub fn control_block(p: &mut Prng) -> ControlBlock {
